@@ -157,7 +157,11 @@ impl FileSystem for OverlayFS {
         let write_path = self.write_path(path)?;
         if !write_path.exists()? {
             self.ensure_has_parent(path)?;
-            self.read_path(path)?.copy_file(&write_path)?;
+            let read_path = self.read_path(path)?;
+            if !read_path.is_file()? {
+                return Err(VfsErrorKind::Other("Not a file".into()).into());
+            }
+            read_path.copy_file(&write_path)?;
         }
         write_path.append_file()
     }
